@@ -778,8 +778,37 @@ def _find_site(h, fnode, cls, rel, imports, in_outer, toplevel=False):
                             (isinstance(st, ast.While) and not st.orelse) or isinstance(st, (ast.For, ast.With))
                         if hoistable and _path_allows_hoist(root if root is not st else st, n, parents):
                             return "hoist", body, idx, st, n, parents
+                        if _split_boolop_assign(body, idx, st):
+                            return _find_site(h, fnode, cls, rel, imports, in_outer, toplevel)
                         n._sa_no_inline = True
     return None
+
+
+def _split_boolop_assign(body, idx, st) -> bool:
+    """`x = a or b or c`  ->  `x = a; if not x: x = b; if not x: x = c`  (and: `if x:`), so that a call in a later
+    operand sits in a statement of its own."""
+    if not (isinstance(st, ast.Assign) and len(st.targets) == 1 and isinstance(st.targets[0], ast.Name)
+            and isinstance(st.value, ast.BoolOp)):
+        return False
+    name = st.targets[0].id
+    if any(isinstance(n, ast.Name) and n.id == name for v in st.value.values for n in ast.walk(v)):
+        return False
+    is_or = isinstance(st.value.op, ast.Or)
+    vals = st.value.values
+    new = [ast.copy_location(ast.Assign(targets=[ast.Name(id=name, ctx=ast.Store())], value=vals[0], type_comment=None), st)]
+    holder = new
+    for v in vals[1:]:
+        test = ast.Name(id=name, ctx=ast.Load())
+        if is_or:
+            test = ast.UnaryOp(op=ast.Not(), operand=test)
+        nxt = ast.If(test=test, body=[ast.Assign(targets=[ast.Name(id=name, ctx=ast.Store())], value=v, type_comment=None)],
+                     orelse=[])
+        holder.append(ast.copy_location(nxt, st))
+        holder = nxt.body
+    for x in new:
+        ast.fix_missing_locations(x)
+    body[idx:idx + 1] = new
+    return True
 
 
 def _in_lambda_or_comp(n, parents) -> bool:
